@@ -56,20 +56,29 @@ def gen_strings(ck):
     return res
 
 
-def run_setter(kind, prior, value):
-    """kind: 'ctor' | 'xt' | 'infohash'; prior: None or a valid hash the object holds before"""
+def run_setter(kind, prior, value, used=False):
+    """kind: 'ctor' | 'xt' | 'infohash'; prior: None or a valid hash the object holds before;
+    used: the object has already converted its previous hash (torrent()) before the assignment.
+    -> ('ok', stored hash, infohash of torrent() on the same object) | ('err', exception, stored hash, infohash of torrent())"""
+    def thash(m):
+        try:
+            return m.torrent().infohash
+        except Exception as e:  # noqa
+            return 'raises:' + type(e).__name__
     try:
         if kind == 'ctor':
             m = torf.Magnet(xt=value)
         else:
             m = torf.Magnet(xt=prior)
+            if used:
+                m.torrent()
             setattr(m, kind, value)
-        return ('ok', m.infohash)
+        return ('ok', m.infohash, thash(m))
     except Exception as e:  # noqa
-        held = None
+        held, th = None, None
         if kind != 'ctor':
-            held = m.infohash
-        return ('err', sl.canon_exc(e), held)
+            held, th = m.infohash, thash(m)
+        return ('err', sl.canon_exc(e), held, th)
 
 
 class Handler(http.server.BaseHTTPRequestHandler):
@@ -104,10 +113,14 @@ def fetch_scenarios(ck):
         for served in ('matching', 'other', 'invalid'):
             for source in ('xs', 'as', 'ws', 'tr'):
                 out.append((notation, served, source))
+        # the magnet first held another hash, tried to fetch (mismatch), and was then corrected through xt / infohash
+        out.append((notation, 'matching', 'xs', 'reassigned-xt'))
+        out.append((notation, 'matching', 'xs', 'reassigned-infohash'))
+        out.append((notation, 'other', 'xs', 'reassigned-xt'))
     return out
 
 
-def run_fetch(port, notation, served, source):
+def run_fetch(port, notation, served, source, history='fresh'):
     good, ih = make_torrent_bytes('wanted')
     other, _ = make_torrent_bytes('other')
     h = {'hex-lower': ih, 'hex-upper': ih.upper(), 'b32-upper': base64.b32encode(bytes.fromhex(ih)).decode(),
@@ -124,7 +137,19 @@ def run_fetch(port, notation, served, source):
         kw['ws'] = [base + '/ws']
     else:
         kw['tr'] = [base + '/announce']
-    m = torf.Magnet(xt=h, **kw)
+    if history == 'fresh':
+        m = torf.Magnet(xt=h, **kw)
+    else:
+        m = torf.Magnet(xt='ab' * 20, **kw)
+        try:
+            m.get_info(timeout=5, callback=lambda e: None)
+        except Exception:  # noqa
+            pass
+        m.torrent()
+        if history == 'reassigned-xt':
+            m.xt = 'urn:btih:' + h
+        else:
+            m.infohash = h
     errors = []
     try:
         ok = m.get_info(timeout=5, callback=errors.append)
@@ -152,12 +177,13 @@ def run(ck, model_ok):
     for si, s in enumerate(strs):
         bare = s[9:] if s[:9].lower() == 'urn:btih:' else None
         for kind in ('ctor', 'xt', 'infohash'):
-            prior = None if kind == 'ctor' else B32
-            got = run_setter(kind, prior, s)
+            prior = None if kind == 'ctor' else (B32, HEX.upper(), B32.lower(), 'c' * 40)[si % 4]
+            used = si % 2 == 1
+            got = run_setter(kind, prior, s, used)
             ck.case((kind, s))
             want_ok = is_valid_hash(s) or (kind != 'infohash' and bare is not None and is_valid_hash(bare))
             ck.count(kind + (':accepted' if got[0] == 'ok' else ':rejected'))
-            case = {'kind': kind, 'value': s, 'prior': prior}
+            case = {'kind': kind, 'value': s, 'prior': prior, 'used': used}
             if got[0] == 'ok':
                 if not want_ok:
                     ck.fail('oracle', 'invalid-hash-accepted', case, 'MagnetError', repr(got), 'an invalid hash/topic was accepted')
@@ -165,14 +191,8 @@ def run(ck, model_ok):
                     exp = s if is_valid_hash(s) else bare
                     if got[1] != exp:
                         ck.fail('oracle', 'stored-hash-differs', case, exp, repr(got), 'accepted but a different value is stored')
-                    try:
-                        mm = torf.Magnet(xt=prior or HEX)
-                        mm._infohash = got[1]
-                        t = mm.torrent()
-                        if t.infohash != hash_bytes(exp).hex():
-                            ck.fail('oracle', 'torrent-infohash-not-hex', case, hash_bytes(exp).hex(), t.infohash, 'torrent() infohash is not the lower-case hex of the same hash')
-                    except Exception as e:  # noqa
-                        ck.fail('oracle', 'torrent-raises:' + type(e).__name__, case, 'a torrent', repr(e)[:100], 'torrent() raised for an accepted hash')
+                    if got[2] != hash_bytes(exp).hex():
+                        ck.fail('oracle', 'torrent-infohash-not-hex', case, hash_bytes(exp).hex(), repr(got[2]), 'torrent() infohash is not the lower-case hex of the hash the magnet holds now')
             else:
                 if want_ok:
                     ck.fail('oracle', 'valid-hash-rejected', case, 'accepted', repr(got), 'a valid hash/topic was rejected')
@@ -180,6 +200,8 @@ def run(ck, model_ok):
                     ck.fail('oracle', 'wrong-error:' + got[1][0], case, 'MagnetError', repr(got), 'rejection did not raise MagnetError')
                 if kind != 'ctor' and got[2] != prior:
                     ck.fail('oracle', 'previous-value-lost', case, prior, repr(got[2]), 'a rejected assignment changed the stored hash')
+                if kind != 'ctor' and got[3] != hash_bytes(prior).hex():
+                    ck.fail('oracle', 'torrent-infohash-not-hex', case, hash_bytes(prior).hex(), repr(got[3]), 'after a rejected assignment torrent() does not carry the previous hash')
             if model_ok and kind != 'ctor':
                 pend.append((case, got, m.add(['magnet.set', kind, [ord(c) for c in prior], [ord(c) for c in s]])))
             elif model_ok:
@@ -236,11 +258,11 @@ def run(ck, model_ok):
     th = threading.Thread(target=srv.serve_forever, daemon=True)
     th.start()
     try:
-        for notation, served, source in fetch_scenarios(ck):
-            ck.case(('fetch', notation, served, source))
+        for notation, served, source, *hist in fetch_scenarios(ck):
+            ck.case(('fetch', notation, served, source, *hist))
             ck.count('fetch:' + served)
-            res, adopted, tih, ih = run_fetch(srv.server_address[1], notation, served, source)
-            case = {'fetch': [notation, served, source]}
+            res, adopted, tih, ih = run_fetch(srv.server_address[1], notation, served, source, *hist)
+            case = {'fetch': [notation, served, source, *hist]}
             if served == 'matching':
                 if res != ('ok', True) or not adopted or tih != ih:
                     ck.fail('oracle', 'matching-metadata-not-adopted', case, 'adopted', repr((res, adopted, tih)), 'matching metadata was not adopted')
@@ -271,10 +293,15 @@ def replay(rp):
         ok = (res == ('ok', True) and adopted and tih == ih) if c['fetch'][1] == 'matching' else (not adopted and tih == ih)
         return ok, repr((res, adopted, tih))
     if 'kind' in c:
-        got = run_setter(c['kind'], c['prior'], c['value'])
+        got = run_setter(c['kind'], c['prior'], c['value'], c.get('used', False))
         s = c['value']
         bare = s[9:] if s[:9].lower() == 'urn:btih:' else None
         want_ok = is_valid_hash(s) or (c['kind'] != 'infohash' and bare is not None and is_valid_hash(bare))
         ok = (got[0] == 'ok') == want_ok and (got[0] == 'ok' or (got[1] == ('MagnetError',) and (c['kind'] == 'ctor' or got[2] == c['prior'])))
+        if ok and got[0] == 'ok':
+            exp = s if is_valid_hash(s) else bare
+            ok = got[2] == hash_bytes(exp).hex()
+        elif ok and c['kind'] != 'ctor':
+            ok = got[3] == hash_bytes(c['prior']).hex()
         return ok, repr(got)
     return False, 'unknown case'
